@@ -96,7 +96,63 @@ def split_case(comp, policy, direction, n=2):
     )
 
 
+def _loco_command_stub(eng, st, args):
+    """Locomotive::solve_energy_consumption replaced by what this property needs of it: the unit records the power it was commanded
+    (the powertrain physics of an accepted command is the subject of C01 / C08 / C09)"""
+    from values import Enum, UNIT
+    p = args[0]
+    loco = eng.load_ptr(st, p)
+    si_ = eng.mir.field_index("Locomotive", "state", len(loco.fields))
+    stt = loco.fields[si_]
+    pi_ = eng.mir.field_index("LocomotiveState", "pwr_out", len(stt.fields))
+    eng.store(st, p.root, tuple(p.path) + (si_, pi_), args[1])
+    return [(st, Enum("Result", 0, [UNIT]))]
+
+
+def consist_battery_first_case(comp="CB"):
+    """the split as the consist applies it: Consist::solve_energy_consumption (after set_pwr_aux / set_cur_pwr_max_out) under the
+    battery-first policy, with the cached count of battery units arbitrary (nothing invalidates it when the unit list changes):
+    fuel-burning units are commanded only the part of a positive demand the battery units cannot cover"""
+    import C11
+    t = C11.consist_tmpl(comp, 2)
+    t["pdct"] = Variant("RESGreedy", {})
+    t["n_res_equipped"] = Sym("nres", "int")
+    conv = [j for j, ch in enumerate(comp) if ch == "C"]
+
+    def assume(S):
+        d = [("dt > 0", S["dt"] > 0), ("positive traction demand", S["req"] > 0), ("cached battery-unit count: any u8 (possibly stale)", z3.And(S["nres"] >= 0, S["nres"] <= 255))]
+        for j, ch in enumerate(comp):
+            d += loco_domain(S, C11.KINDS[ch], f"l{j}_", 2)
+            if ch == "C":
+                d.append((f"l{j}: previous shaft power >= 0", S[f"l{j}_fc_s_pwr_brake"] >= 0))
+        return d
+
+    def deficit(c):
+        return MAX(0, c.S["req"] - c.post["state.pwr_out_max_reves"])
+
+    claims = [
+        Claim("battery_first at consist level: the fuel units together are commanded exactly the deficit the consist computed", lambda c: EQ(sum(c.post[f"loco_vec.{j}.state.pwr_out"] for j in conv), c.post["state.pwr_out_deficit"]),
+              when="ok", role="consist_battery_first_sum"),
+        Claim("battery_first at consist level: while the battery units can cover the demand the fuel units are commanded nothing",
+              lambda c: IMP(XEQ(c.post["state.pwr_out_deficit"], 0), AND(*[EQ(c.post[f"loco_vec.{j}.state.pwr_out"], 0) for j in conv])), when="ok", role="consist_battery_first"),
+        Claim("the deficit is the part of the demand above what the battery units can deliver", lambda c: EQ(c.post["state.pwr_out_deficit"], deficit(c)), when="ok", role="consist_deficit"),
+        Claim("no_panic", None, when="nopanic"),
+    ]
+    case = Case(f"consist_battery_first_{comp}", "C10", "Consist", t, C11.CONSIST_STEP(), assume, claims,
+                bounds={"composition": comp, "policy": "RESGreedy", "demand": "> 0", "cached n_res_equipped": "symbolic u8", "steps": "1 solve_step sequence from an arbitrary pre-state"},
+                stubs={"utils::interp1d": interp1d_contract, "utils::interp3d": interp3d_contract, "Locomotive::solve_energy_consumption": _loco_command_stub},
+                max_paths=60000, timeout_ms=120000, check_side=False,
+                notes=["efficiency-map interpolations replaced by their contracts (C08)", "each unit's solve_energy_consumption replaced by a stub that records the commanded power"])
+    case.native_pre = [Call("Consist::verif_set_n_res_equipped", [("u8", Sym("nres", "int"))])]  # the cache is serde-skipped: set on the real object by a hook
+    return case
+
+
 def m_cases(tier):
+    return _m_cases(tier) + [consist_battery_first_case("CB")]
+
+
+def _m_cases(tier):
+    tier = "thorough"  # the full case list is cheap enough to run on every change (the tiers differ only in validation vectors)
     comps = ["CB", "BC", "CC", "BB", "CBC"] if tier == "quick" else ["C", "B", "CB", "BC", "CC", "BB", "CBC", "BCB", "CCB", "BBC", "CCC", "BBB", "CBCB"]
     cs = []
     for comp in comps:
